@@ -1,10 +1,289 @@
 package main
 
-import "verif/harness/vf"
+import (
+	"bytes"
+	"fmt"
+	"sort"
+	"strings"
 
+	"github.com/youchainhq/go-youchain/common"
+	"github.com/youchainhq/go-youchain/trie"
+	"github.com/youchainhq/go-youchain/youdb"
+	"verif/harness/vf"
+)
+
+// GcStep is one step of a database schedule.
 type GcStep struct {
-	Kind string `json:"kind"`
+	Kind  string `json:"kind"` // build ref deref cap commit refchild
+	Base  int    `json:"base,omitempty"`  // build: index of the root to start from (-1 = empty trie)
+	Root  int    `json:"root,omitempty"`  // ref/deref/commit/refchild: index into the list of built roots
+	Limit int    `json:"limit,omitempty"` // cap: percentage of the current size to keep
+	Ops   []Step `json:"ops,omitempty"`   // build: updates / deletes
+	Node  int    `json:"node,omitempty"`  // refchild: index of the parent node in the flush-list
 }
 
-func runGc(h *History, res *vf.Result) (string, []hit) { return "mkCase false [] []", nil }
-func genGc(rng *vf.Rng) History                      { return genHistory(rng) }
+type gcRoot struct {
+	hash    common.Hash
+	content map[string][]byte
+}
+
+func copyMap(m map[string][]byte) map[string][]byte {
+	out := map[string][]byte{}
+	for k, v := range m {
+		out[k] = v
+	}
+	return out
+}
+
+func nPairs(ps []trie.VerifNode) string {
+	xs := make([]string, len(ps))
+	for i, p := range ps {
+		xs[i] = fmt.Sprintf("(%s,%d%%N)", bl(p.Hash.Bytes()), p.Parents)
+	}
+	return "[" + strings.Join(xs, ";") + "]"
+}
+
+// runGc executes a database schedule; after every step each live root (meta
+// reference count > 0, or committed to disk) must still read back its content.
+func runGc(h *History, res *vf.Result) (string, []hit) {
+	var hits []hit
+	count := func(c string) {
+		if res != nil {
+			res.Count(c)
+		}
+	}
+	fail := func(what, detail string) {
+		count("oracle:" + what)
+		hits = append(hits, hit{What: what, Detail: detail, History: *h})
+	}
+	diskdb := youdb.NewMemDatabase()
+	triedb := trie.NewDatabase(diskdb)
+	var roots []gcRoot
+	refs := map[common.Hash]int{}     // meta references by the harness' own count
+	onDisk := map[common.Hash]bool{}  // roots committed to disk
+	var gops []string
+	extEdges := map[common.Hash][]common.Hash{} // explicit references parent node -> child root
+	// reachable collects the node hashes reachable from a root (implicit and explicit edges)
+	var reachable func(root common.Hash, seen map[common.Hash]bool)
+	reachable = func(root common.Hash, seen map[common.Hash]bool) {
+		if seen[root] || root == emptyRoot || root == (common.Hash{}) {
+			return
+		}
+		t, err := trie.New(root, triedb)
+		if err != nil {
+			return
+		}
+		it := t.NodeIterator(nil)
+		for it.Next(true) {
+			if h := it.Hash(); h != (common.Hash{}) && !seen[h] {
+				seen[h] = true
+				for _, c := range extEdges[h] {
+					reachable(c, seen)
+				}
+			}
+		}
+	}
+
+	observe := func() {
+		fl, ok := triedb.VerifFlushList()
+		if !ok {
+			fail("the flush-list of the node cache is corrupt", "")
+		}
+		meta := triedb.VerifMetaChildren()
+		var mk []string
+		for k := range meta {
+			mk = append(mk, string(k.Bytes()))
+		}
+		sort.Strings(mk)
+		var ms []string
+		for _, k := range mk {
+			ms = append(ms, fmt.Sprintf("(%s,%d%%N)", bl([]byte(k)), meta[common.BytesToHash([]byte(k))]))
+		}
+		var dk [][]byte
+		for _, k := range diskdb.Keys() {
+			if len(k) == 32 {
+				dk = append(dk, k)
+			}
+		}
+		sort.Slice(dk, func(i, j int) bool { return bytes.Compare(dk[i], dk[j]) < 0 })
+		gops = append(gops, fmt.Sprintf("GObserve %s [%s] %s", nPairs(fl), strings.Join(ms, ";"), bll(dk)))
+	}
+	checkLive := func(step int) {
+		for _, r := range roots {
+			if refs[r.hash] <= 0 && !onDisk[r.hash] {
+				continue
+			}
+			t, err := trie.New(r.hash, triedb)
+			if err != nil {
+				fail("a live root lost nodes", fmt.Sprintf("step %d root %x: %v", step, r.hash, err))
+				continue
+			}
+			it := trie.NewIterator(t.NodeIterator(nil))
+			n := 0
+			for it.Next() {
+				if want, ok := r.content[string(it.Key)]; !ok || !bytes.Equal(want, it.Value) {
+					fail("a live root changed its content", fmt.Sprintf("step %d root %x key %x", step, r.hash, it.Key))
+				}
+				n++
+			}
+			if it.Err != nil || n != len(r.content) {
+				fail("a live root lost nodes", fmt.Sprintf("step %d root %x: %d of %d pairs, err %v", step, r.hash, n, len(r.content), it.Err))
+			}
+		}
+	}
+	func() {
+		defer func() {
+			if e := recover(); e != nil {
+				fail("the implementation panicked", fmt.Sprint(e))
+			}
+		}()
+		for i, s := range h.Gc {
+			switch s.Kind {
+			case "build":
+				base := gcRoot{hash: common.Hash{}, content: map[string][]byte{}}
+				if s.Base >= 0 && s.Base < len(roots) && (refs[roots[s.Base].hash] > 0 || onDisk[roots[s.Base].hash]) {
+					base = roots[s.Base]
+				}
+				t, err := trie.New(base.hash, triedb)
+				if err != nil {
+					fail("a live root lost nodes", fmt.Sprintf("step %d open %x: %v", i, base.hash, err))
+					continue
+				}
+				content := copyMap(base.content)
+				for _, o := range s.Ops {
+					if o.Kind == "delete" || len(o.V) == 0 {
+						t.Delete(o.K)
+						delete(content, string(o.K))
+					} else {
+						t.Update(o.K, o.V)
+						content[string(o.K)] = o.V
+					}
+				}
+				before, _ := triedb.VerifFlushList()
+				root, err := t.Commit(nil)
+				if err != nil {
+					fail("commit returned an error", err.Error())
+					continue
+				}
+				after, _ := triedb.VerifFlushList()
+				// insertions append to the flush-list
+				var ins [][2][]byte
+				for _, n := range after[len(before):] {
+					b, _ := triedb.Node(n.Hash)
+					ins = append(ins, [2][]byte{n.Hash.Bytes(), b})
+				}
+				roots = append(roots, gcRoot{root, content})
+				count("gc:build")
+				gops = append(gops, "GInsert "+pairs(ins))
+				// reference it right away (the usage the state database follows)
+				if root != emptyRoot {
+					triedb.Reference(root, common.Hash{})
+					refs[root]++
+					gops = append(gops, fmt.Sprintf("GReference %s (B 0 [])", bl(root.Bytes())))
+				}
+			case "ref":
+				if s.Root < len(roots) && refs[roots[s.Root].hash] > 0 {
+					r := roots[s.Root].hash
+					triedb.Reference(r, common.Hash{})
+					refs[r]++
+					count("gc:ref_again")
+					gops = append(gops, fmt.Sprintf("GReference %s (B 0 [])", bl(r.Bytes())))
+				}
+			case "deref":
+				if s.Root < len(roots) && refs[roots[s.Root].hash] > 0 {
+					r := roots[s.Root].hash
+					triedb.Dereference(r)
+					refs[r]--
+					if refs[r] == 0 {
+						count("gc:deref_last")
+					} else {
+						count("gc:deref")
+					}
+					gops = append(gops, fmt.Sprintf("GDereference %s", bl(r.Bytes())))
+				}
+			case "cap":
+				sz, _ := triedb.Size()
+				limit := uint64(sz) * uint64(s.Limit) / 100
+				if err := triedb.Cap(common.StorageSize(limit)); err != nil {
+					fail("cap returned an error", err.Error())
+				}
+				count("gc:cap")
+				gops = append(gops, fmt.Sprintf("GCap %d%%N", limit))
+			case "commit":
+				if s.Root < len(roots) && refs[roots[s.Root].hash] > 0 && roots[s.Root].hash != emptyRoot {
+					r := roots[s.Root].hash
+					if err := triedb.Commit(r, false); err != nil {
+						fail("database commit returned an error", err.Error())
+					}
+					onDisk[r] = true
+					count("gc:commit")
+					gops = append(gops, fmt.Sprintf("GCommit %s", bl(r.Bytes())))
+				}
+			case "refchild":
+				// an explicit reference from a cached node to another root (account -> storage trie)
+				fl, _ := triedb.VerifFlushList()
+				if s.Root < len(roots) && refs[roots[s.Root].hash] > 0 && len(fl) > 0 {
+					parent := fl[s.Node%len(fl)].Hash
+					child := roots[s.Root].hash
+					seen := map[common.Hash]bool{}
+					reachable(child, seen)
+					if parent != child && !seen[parent] {
+						extEdges[parent] = append(extEdges[parent], child)
+						triedb.Reference(child, parent)
+						count("gc:refchild")
+						gops = append(gops, fmt.Sprintf("GReference %s %s", bl(child.Bytes()), bl(parent.Bytes())))
+					}
+				}
+			}
+			observe()
+			checkLive(i)
+		}
+	}()
+	return fmt.Sprintf("mkCase false [] [] [%s]", strings.Join(gops, ";\n  ")), hits
+}
+
+func genGc(rng *vf.Rng) History {
+	h := History{Kind: "gc"}
+	pool := genPool(rng)
+	for len(pool) < 6 {
+		pool = append(pool, rng.Bytes(1+rng.Intn(3)))
+	}
+	n := 3 + rng.Heavy(40)
+	built := 0
+	for i := 0; i < n; i++ {
+		x := rng.Intn(100)
+		switch {
+		case x < 40 || built == 0:
+			st := GcStep{Kind: "build", Base: -1}
+			if built > 0 && rng.Chance(75) {
+				st.Base = rng.Intn(built)
+			}
+			m := 1 + rng.Heavy(24)
+			for j := 0; j < m; j++ {
+				k := pool[rng.Intn(len(pool))]
+				if rng.Chance(25) {
+					st.Ops = append(st.Ops, Step{Kind: "delete", K: k})
+				} else {
+					v := genValue(rng)
+					if rng.Chance(70) {
+						v = rng.Bytes(32 + rng.Intn(8)) // large enough to be stored as separate nodes
+					}
+					st.Ops = append(st.Ops, Step{Kind: "update", K: k, V: v})
+				}
+			}
+			h.Gc = append(h.Gc, st)
+			built++
+		case x < 48:
+			h.Gc = append(h.Gc, GcStep{Kind: "ref", Root: rng.Intn(built)})
+		case x < 72:
+			h.Gc = append(h.Gc, GcStep{Kind: "deref", Root: rng.Intn(built)})
+		case x < 84:
+			h.Gc = append(h.Gc, GcStep{Kind: "cap", Limit: int(rng.Pick([]uint64{0, 10, 30, 50, 70, 90, 100}))})
+		case x < 92:
+			h.Gc = append(h.Gc, GcStep{Kind: "commit", Root: rng.Intn(built)})
+		default:
+			h.Gc = append(h.Gc, GcStep{Kind: "refchild", Root: rng.Intn(built), Node: rng.Intn(64)})
+		}
+	}
+	return h
+}
